@@ -7,7 +7,7 @@ CONSTANTS
   SessIdx <- PairIdx
   MaxForge = 2
   MaxSend = 1
-  Window = 2
+  Window = 1000
   Weak = {}
   MaxSteps = 0
 VIEW view
